@@ -6,7 +6,7 @@ patch="/verif/seeded/$seed/patch.diff"
 git -C /repo apply "$patch" || { echo "cannot apply $patch"; exit 2; }
 rc=0
 for p in "$@"; do
-  (cd /verif && ./check "$p" quick 2>&1 | grep -E "^(VIOLATION|KNOWN-FINDING|gocv: property|OUTSIDE|gocv: TOOL)" | cut -c1-260) || rc=$?
+  (cd /verif && GOCV_EVIDENCE_DIR=/verif/.work/evidence-seed ./check "$p" quick 2>&1 | grep -E "^(VIOLATION|KNOWN-FINDING|gocv: property|OUTSIDE|gocv: TOOL)" | cut -c1-260) || rc=$?
 done
 git -C /repo apply -R "$patch" || echo "WARNING: could not reverse $patch"
 git -C /repo status --short
